@@ -7,7 +7,7 @@
 #   topic OSAPEdges     osap.go (*optSuffixArrayParser).computeEdges with its closure f (lambda-lifted, code_cblift.go)
 #                       proofs LzProofs/GenOSAPEdgesCB.lean, GenOSAPEdgesFold.lean, GenOSAPEdges.lean, GenOSAPHistGo.lean
 #
-# For every mutant: copy the repository to <verif>/scratch-repo, apply one small semantic
+# For every mutant: copy the repository to a fresh directory under /tmp, apply one small semantic
 # change, regenerate LzModel/Generated/Code*.lean from the copy into a COPY of the lake
 # project, and build LzProofs.GenOSAPPath LzProofs.GenOSAPParse LzProofs.GenOSAPInit LzProofs.GenOSAPAll there.
 #   kind proof    : the build must FAIL (the failing theorems are listed)
@@ -25,7 +25,7 @@ REPO="${REPO:-/repo}"
 SCRATCH="$(mktemp -d /tmp/pf-genosap-selftest.XXXXXX)"
 LEAN="$SCRATCH/lean"
 GEN="$LEAN/LzModel/Generated"
-MUT="$HERE/scratch-repo"
+MUT="$(mktemp -d /tmp/pf-mutrepo.XXXXXX)/scratch-repo"   # scratch copies of the library live outside /verif and /repo
 EXTRACT="$SCRATCH/extract"
 TARGETS="${TARGETS:-LzProofs.GenOSAPPath LzProofs.GenOSAPParse LzProofs.GenOSAPInit LzProofs.GenOSAPAll LzProofs.GenOSAPEdges LzProofs.GenOSAPHistGo}"
 bad=0; good=0; total=0
